@@ -20,11 +20,9 @@ import (
 	"errors"
 	"fmt"
 	"reflect"
-	"runtime/debug"
 	"strings"
 
 	"github.com/cloudwego/eino/internal/generic"
-	"github.com/cloudwego/eino/internal/safe"
 	"github.com/cloudwego/eino/schema"
 )
 
@@ -187,6 +185,11 @@ func buildStreamFieldMappingConverter[I any]() func(input streamReader) streamRe
 				var i I
 				return i, err
 			}
+			if t == nil {
+				// a chunk that carries none of the mapped fields of an interface typed input
+				var i I
+				return i, nil
+			}
 			return t.(I), nil
 		}))
 	}
@@ -213,6 +216,10 @@ func convertTo(mappings map[string]any, typ reflect.Type) (any, error) {
 func assignOne(destValue reflect.Value, taken any, to string) (reflect.Value, error) {
 	if len(to) == 0 { // assign to output directly
 		toSet := reflect.ValueOf(taken)
+		if !toSet.IsValid() {
+			// a nil value: the zero value of the destination is what it maps to
+			return destValue, nil
+		}
 		if !toSet.Type().AssignableTo(destValue.Type()) {
 			return destValue, fmt.Errorf("mapping entire value has a mismatched type. from=%v, to=%v", toSet.Type(), destValue.Type())
 		}
@@ -587,7 +594,9 @@ func fieldMap(mappings []*FieldMapping, allowMapKeyNotFound bool) func(any) (map
 						return nil, err
 					}
 
-					panic(safe.NewPanicErr(err, debug.Stack()))
+					// anything else can only come from a value behind an interface type or from a nil pointer on the
+					// path, i.e. it is a request time error as well
+					return nil, err
 				}
 
 				if i < len(fromPath)-1 {
@@ -609,6 +618,10 @@ func streamFieldMap(mappings []*FieldMapping) func(streamReader) streamReader {
 }
 
 func takeOne(inputValue reflect.Value, inputType reflect.Type, from string) (taken any, takenType reflect.Type, err error) {
+	if !inputValue.IsValid() {
+		return nil, nil, fmt.Errorf("field mapping from a field of a nil value, field=%s", from)
+	}
+
 	var f reflect.Value
 	switch inputValue.Kind() {
 	case reflect.Map:
@@ -620,6 +633,9 @@ func takeOne(inputValue reflect.Value, inputType reflect.Type, from string) (tak
 		return f.Interface(), f.Type(), nil
 	case reflect.Ptr, reflect.Interface:
 		inputValue = inputValue.Elem()
+		if !inputValue.IsValid() {
+			return nil, nil, fmt.Errorf("field mapping from a field of a nil pointer or nil interface value, field=%s", from)
+		}
 		fallthrough
 	case reflect.Struct:
 		f, err = checkAndExtractFromField(from, inputValue)
